@@ -221,6 +221,43 @@ func c19Has(cmp capability.VersionComparer, v string, capStrs [][]string) string
 	return "ok " + strings.Join(out, ",")
 }
 
+// c19HasAgain: the same question asked of a version object with a history — the object was first evaluated
+// against the same Capability objects while their ranges contained the version (so every capability was
+// recorded as present), then the ranges are set to the real ones and the version is evaluated again. What it
+// has must be what the ranges say now. "" = no history possible (the comparer rejects the version).
+func c19HasAgain(cmp capability.VersionComparer, v string, capStrs [][]string) string {
+	caps := make([]*capability.Capability, len(capStrs))
+	for i := range capStrs {
+		caps[i] = capability.NewCapability("cap"+strconv.Itoa(i), v, "")
+	}
+	t := capability.Target{VersionComparer: cmp, Capabilities: caps}
+	ver, err := t.Version(v)
+	if err != nil || ver == nil || len(caps) == 0 {
+		return ""
+	}
+	for i, ss := range capStrs {
+		caps[i].VersionRanges = capability.NewCapability("x", ss...).VersionRanges
+		if len(caps[i].VersionRanges) == 0 {
+			// a capability whose ranges were all taken away is not re-evaluated at all by SetCapabilities
+			// (nothing to iterate over): re-use of a version object is only judged for capabilities that
+			// still have ranges
+			return ""
+		}
+	}
+	if err := t.SetCapabilities(ver); err != nil {
+		return "err"
+	}
+	out := make([]string, len(caps))
+	for i, c := range caps {
+		if ver.Has(c) {
+			out[i] = "1"
+		} else {
+			out[i] = "0"
+		}
+	}
+	return "ok " + strings.Join(out, ",")
+}
+
 func c19Impl(line string) string {
 	l, ok := c19Parse(line)
 	if !ok {
@@ -228,7 +265,13 @@ func c19Impl(line string) string {
 	}
 	switch l.mode {
 	case "int":
-		return c19Has(c19IntCmp, l.v, l.caps)
+		ans := c19Has(c19IntCmp, l.v, l.caps)
+		if strings.HasPrefix(ans, "ok ") {
+			if again := c19HasAgain(c19IntCmp, l.v, l.caps); again != "" && again != ans {
+				return "re-evaluated-version-differs:" + strings.ReplaceAll(again, " ", "_")
+			}
+		}
+		return ans
 	case "tbl":
 		// the answer comes from the default path (VersionComparer == nil)
 		ans := c19Has(nil, l.v, l.caps)
